@@ -111,6 +111,100 @@ impl<'ast> Visit<'ast> for CallCollector {
     }
 }
 
+// ------------------------------------------------------------------------------------------ R21: item macros
+
+/// Expands item-level invocations of single-arm `macro_rules!` macros whose parameters are `$x:ty` / `$x:ident` /
+/// `$x:expr` fragments, by token substitution of the macro's own body. Returns a log of the expansions.
+pub fn expand_item_macros(file: &mut syn::File) -> Vec<Value> {
+    use proc_macro2::Delimiter;
+    let mut defs: std::collections::HashMap<String, (Vec<String>, TokenStream)> = Default::default();
+    for it in &file.items {
+        if let syn::Item::Macro(m) = it {
+            if m.mac.path.is_ident("macro_rules") {
+                if let Some(name) = &m.ident {
+                    // body: ( $a:ty , $b:ty ) => { ... } ;
+                    let toks: Vec<TokenTree> = m.mac.tokens.clone().into_iter().collect();
+                    if toks.len() >= 4 {
+                        if let (TokenTree::Group(pg), TokenTree::Group(bg)) = (&toks[0], &toks[3]) {
+                            let mut params = vec![];
+                            let pt: Vec<TokenTree> = pg.stream().into_iter().collect();
+                            let mut i = 0;
+                            while i + 3 < pt.len() + 1 {
+                                if let (Some(TokenTree::Punct(d)), Some(TokenTree::Ident(n))) = (pt.get(i), pt.get(i + 1)) {
+                                    if d.as_char() == '$' {
+                                        params.push(n.to_string());
+                                        i += 4; // $ name : frag
+                                        if let Some(TokenTree::Punct(c)) = pt.get(i) {
+                                            if c.as_char() == ',' {
+                                                i += 1;
+                                            }
+                                        }
+                                        continue;
+                                    }
+                                }
+                                break;
+                            }
+                            let single_arm = toks.len() <= 5;
+                            if single_arm && !params.is_empty() && bg.delimiter() == Delimiter::Brace {
+                                defs.insert(name.to_string(), (params, bg.stream()));
+                            }
+                        }
+                    }
+                }
+            }
+        }
+    }
+    fn subst(ts: TokenStream, map: &std::collections::HashMap<String, TokenStream>) -> TokenStream {
+        let toks: Vec<TokenTree> = ts.into_iter().collect();
+        let mut out = TokenStream::new();
+        let mut i = 0;
+        while i < toks.len() {
+            if let TokenTree::Punct(p) = &toks[i] {
+                if p.as_char() == '$' {
+                    if let Some(TokenTree::Ident(n)) = toks.get(i + 1) {
+                        if let Some(r) = map.get(&n.to_string()) {
+                            out.extend(r.clone());
+                            i += 2;
+                            continue;
+                        }
+                    }
+                }
+            }
+            match &toks[i] {
+                TokenTree::Group(g) => {
+                    let mut ng = proc_macro2::Group::new(g.delimiter(), subst(g.stream(), map));
+                    ng.set_span(g.span());
+                    out.extend(std::iter::once(TokenTree::Group(ng)));
+                }
+                t => out.extend(std::iter::once(t.clone())),
+            }
+            i += 1;
+        }
+        out
+    }
+    let mut log = vec![];
+    let mut new_items = vec![];
+    for it in &file.items {
+        if let syn::Item::Macro(m) = it {
+            if let Some(id) = m.mac.path.get_ident() {
+                if let Some((params, body)) = defs.get(&id.to_string()) {
+                    let args = split_commas(m.mac.tokens.clone());
+                    if args.len() == params.len() {
+                        let map: std::collections::HashMap<String, TokenStream> = params.iter().cloned().zip(args.into_iter()).collect();
+                        let ts = subst(body.clone(), &map);
+                        if let Ok(f) = syn::parse2::<syn::File>(ts) {
+                            log.push(json!({"rule": "R21", "line": id.span().start().line, "what": format!("{}!({}) expanded from its macro_rules! body", id, norm(m.mac.tokens.clone()))}));
+                            new_items.extend(f.items);
+                        }
+                    }
+                }
+            }
+        }
+    }
+    file.items.extend(new_items);
+    log
+}
+
 // ------------------------------------------------------------------------------------------ cfg (R22)
 
 fn cfg_eval(ts: TokenStream) -> bool {
@@ -1233,6 +1327,24 @@ pub fn extract_fn(file: &syn::File, name: &str, opts: &Value, rules: &[Rule], pl
             cx.log.push(json!({"rule": "R25", "line": src_line, "what": format!("parameter {} renamed to {}", a, b)}));
         }
     }
+    // R15b: `mut self` receiver -> `self` + `let mut __vp_self = self;` with every use of `self` in the body renamed
+    let mut mut_self = false;
+    for inp in f.sig.inputs.iter_mut() {
+        if let syn::FnArg::Receiver(r) = inp {
+            if r.reference.is_none() && r.mutability.is_some() {
+                r.mutability = None;
+                mut_self = true;
+            }
+        }
+    }
+    if mut_self {
+        let m = vec![("self".to_string(), "__vp_self".to_string())];
+        if let Some(b) = &mut f.block {
+            Renamer { map: &m }.visit_block_mut(b);
+            b.stmts.insert(0, syn::parse_quote!(let mut __vp_self = self;));
+        }
+        cx.log.push(json!({"rule": "R15", "line": src_line, "what": "`mut self` receiver -> shadowing let (uses renamed to __vp_self)"}));
+    }
     // params
     let mut params = vec![];
     let mut mut_params: Vec<syn::Ident> = vec![];
@@ -1428,8 +1540,12 @@ pub fn extract_other(file: &syn::File, kind: &str, name: &str, _opts: &Value, _r
                     }
                     let mut g2 = tr.generics.clone();
                     g2.where_clause = None;
+                    let sup = match _opts.get("supertraits").and_then(|v| v.as_str()) {
+                        Some(s) => s.to_string(),
+                        None => one_line(tr.supertraits.to_token_stream()),
+                    };
                     return Ok(json!({"ident": name, "generics": one_line(g2.to_token_stream()),
-                        "supertraits": one_line(tr.supertraits.to_token_stream()), "consts": consts, "fns": fns,
+                        "supertraits": sup, "consts": consts, "fns": fns,
                         "src_line": tr.ident.span().start().line, "rewrites": []}));
                 }
             }
